@@ -46,6 +46,10 @@ def make_plan(seed: int, tier: str) -> dict:
     if st.bernoulli(0.08):
         cfg["kind"] = "mixture"
         cfg["n"] = max(cfg["n"], 5)
+    if st.bernoulli(0.12):
+        # fault: from some iteration on, one feature is reproduced exactly by the model (a saturated / constant score): its residual
+        # variance is 0 while the other features keep theirs - the step must give the closed form or refuse, never something else
+        cfg["exact_feature"] = {"k": st.randint(1, max(1, cfg["n_iter"] - 1)), "f": st.randint(0, 3)}
     return {"seed": seed, "tier": tier, "engine": "fitsim_c04", "world": cfg}
 
 
@@ -89,6 +93,25 @@ class C04Monitor(fitsim.Monitor):
                 violation(self.out, "statistics_content", f"statistic_is_not_what_it_is_named:{'sqr' if nm.endswith('_sqr') else ('value' if nm in s.dag else nm)}",
                           f"{where}: {nm}: {g.reshape(-1)[:4].tolist()} vs {e.reshape(-1)[:4].tolist()}")
                 return
+
+    def before_mstep(self, w, k):
+        ef = self.cfg.get("exact_feature")
+        if not ef or k < ef["k"]:
+            return
+        s = w.state
+        if "y" not in s.dag or "model" not in s.dag or not hasattr(s["y"], "weight"):
+            return
+        y = s["y"]
+        if y.value.ndim != 3 or y.value.shape[-1] < 2 or not y.value.is_floating_point():
+            return
+        from leaspy.utils.weighted_tensor import WeightedTensor
+
+        f = ef["f"] % y.value.shape[-1]
+        v = y.value.clone()
+        v[..., f] = wv(s["model"])[..., f].to(v.dtype)
+        with s.auto_fork(None):
+            s["y"] = WeightedTensor(v, y.weight)
+        self.C["fault.feature_reproduced_exactly"] += 1
 
     def before_update(self, w, k, S, burn_in):
         s = w.state
